@@ -592,7 +592,7 @@ class Engine:
                 st2 = snap.clone()
                 st2.assume(sp.cond if val else z3.Not(sp.cond))
                 st2.decided = dict(getattr(snap, "decided", {}))
-                st2.decided[sp.cond.get_id()] = val
+                st2.decided[sp.cond.get_id()] = (val, sp.cond)     # the term is kept alive: its id cannot be recycled
                 outs += self.exec_stmt(s, st2)
             return outs
 
@@ -604,8 +604,12 @@ class Engine:
         if z3.is_false(c):
             return False
         d = getattr(st, "decided", {})
-        if cond.get_id() in d:
-            return d[cond.get_id()]
+        hit = d.get(cond.get_id())
+        if hit is not None and hit[1].eq(cond):
+            return hit[0]
+        for val, term in d.values():
+            if term.eq(cond):
+                return val
         return None
 
     def exec_stmt1(self, s, st):
@@ -747,12 +751,17 @@ class Engine:
         return res
 
     def literally_known(self, c, st):
-        """cheap syntactic pruning: the condition (or its negation) is literally among the path facts"""
-        ids = {z3.simplify(f).get_id() for f in st.pc[-40:]}
-        if c.get_id() in ids:
-            return True
-        if z3.simplify(z3.Not(c)).get_id() in ids:
-            return False
+        """cheap syntactic pruning: the condition (or its negation) is literally among the recent path facts.
+        Structural comparison on live terms (ast ids of temporaries are recycled by z3, never compare those)."""
+        facts = [z3.simplify(f) for f in st.pc[-40:]]
+        nc = z3.simplify(z3.Not(c))
+        hc, hn = c.hash(), nc.hash()
+        for f in facts:
+            h = f.hash()
+            if h == hc and f.eq(c):
+                return True
+            if h == hn and f.eq(nc):
+                return False
         return None
 
     def merge(self, outs_t, outs_f, c):
@@ -1809,7 +1818,11 @@ class Engine:
         if name in ("forall", "exists"):
             return self.quantifier(name, e, st)
         if name == "implies":
-            a, b = [self.truthy(self.ev(x, st, True), st) for x in e.args]
+            a = self.truthy(self.ev(e.args[0], st, True), st)
+            known = self.literally_known(z3.simplify(a), st)
+            if z3.is_false(z3.simplify(a)) or known is False:
+                return z3.BoolVal(True)          # the consequent is not evaluated on paths where the antecedent is false
+            b = self.truthy(self.ev(e.args[1], st, True), st)
             return z3.Implies(a, b)
         if name == "iff":
             a, b = [self.truthy(self.ev(x, st, True), st) for x in e.args]
@@ -2141,14 +2154,16 @@ class Engine:
             r = V.ite(k == j, v.items[j], r)
         return r
 
-    def generator_iter(self, qual, node, st):
+    def generator_iter(self, qual, node, st, argvals=None):
         callee = self.registry[qual]
         self.callees.add(qual)
-        argvals = [self.ev(a, st, False) for a in node.args]
+        if argvals is None:
+            argvals = [self.ev(a, st, False) for a in node.args]
         pnames = list(callee.params)
         cst = State(env=dict(zip(pnames, argvals)), pc=st.pc, heap=st.heap, nxt=st.nxt)
         sub = self.sub_engine(callee, qual, cst, st)
         cst.old = dict(cst.env)
+        cst.oldheap = {k: dict(v) for k, v in st.heap.items()}
         line = node.lineno
         for k, cl in enumerate(callee.requires):
             g = sub.spec(cl, cst)
@@ -2156,8 +2171,19 @@ class Engine:
                         line, cl.text, cl.props)
             st.assume(g)
         self.import_lemmas(sub, callee, cst, st)
+        # a generator that raises does so at the first next(): exceptional exits declared by its contract
+        for exc, rs in callee.raises.items():
+            cond = rs.get("iff", rs.get("when"))
+            rst = st.clone()
+            if cond is not None:
+                cst_r = State(env=dict(cst.env), pc=rst.pc, heap=rst.heap, old=cst.old, nxt=st.nxt)
+                cst_r.oldheap = cst.oldheap
+                rst.assume(sub.spec(as_clause(cond), cst_r))
+            self.pending_raises.append((exc, rst))
+            if rs.get("iff") is not None:
+                st.assume(z3.Not(sub.spec(as_clause(rs["iff"]), cst)))
         count = sub.spec(callee.count, cst)
-        tmpl = callee.returns.fresh("yield_tmpl")
+        tmpl = self.make_param("yield_tmpl", callee.returns, st)
         # ghost sequence of yielded values: one lifted family indexed by the yield number
         seq = Lifted(tmpl, [z3.Const(V.fresh_name("Y"), z3.ArraySort(I, c.sort())) for c in V.comps(tmpl)])
         kq = V.fresh("ky", I)
